@@ -49,12 +49,12 @@ def run(pid, tier):
     cov = {"states": 0, "transitions": 0, "traces_validated_against_impl": 0, "samples": [], "model_configs": [], "walks": []}
     # (1) TLC decides the invariants on every behaviour of small instances of Replication.tla
     for c in (MC_QUICK if tier == "quick" else MC_THOROUGH):
-        r = vlib.run_tlc("MCReplication.tla", mc_cfg(c, invs), workers=8, timeout=3000, heap="16g", coverage=(tier == "thorough"))
+        r = vlib.run_tlc("MCReplication.tla", mc_cfg(c, invs), workers=8, timeout=3600, heap="16g", coverage=(tier == "thorough"), budget=900 if tier == "quick" else 2400)
         if r.error:
             raise vlib.ToolError("TLC on Replication.tla failed: %s\n%s" % (r.error, r.output[-1500:]))
-        vlib.log("[%s] TLC Replication %s: %d generated, %d distinct, depth %d, violated=%s (%.0fs)" % (pid, c, r.generated, r.distinct, r.depth, r.violated, r.wall))
+        vlib.log("[%s] TLC Replication %s: %d generated, %d distinct, depth %d, violated=%s (%.0fs)%s" % (pid, c, r.generated, r.distinct, r.depth, r.violated, r.wall, " - time budget used up, exploration incomplete" if r.budget_exhausted else ""))
         cov["states"] += r.distinct; cov["transitions"] += r.generated
-        cov["model_configs"].append(dict(c, distinct_states=r.distinct, transitions=r.generated, depth=r.depth, invariants=invs))
+        cov["model_configs"].append(dict(c, distinct_states=r.distinct, transitions=r.generated, depth=r.depth, invariants=invs, complete=not r.budget_exhausted))
         if r.violated:
             # the model admits a bad state: it is a violation only if the real code follows the counter-example into it
             cfg2 = mc_cfg(c, [r.violated]).replace(".cfg", "_op.cfg")
